@@ -51,4 +51,21 @@ Definition check_C01 (kind : string) (input output : J) : verdict :=
         end
     | _, _ => malformed
     end
+  else if String.eqb kind "bigpair" then
+    (* as "pair", both observations replaced by Canon.summary (big inputs) *)
+    match dec_prog input, output with
+    | Some (s, steps, MPar n), JL [jseq; jpar] =>
+        match dec_obs jseq, dec_obs jpar with
+        | Some oseq, Some opar =>
+            if big_ok steps then
+              let e := is_exact steps in
+              ok_verdict (big_agree MSeq s steps oseq && big_agree (MPar n) s steps opar)
+                         (not_hang oseq && not_hang opar &&
+                          (partition_dependent (steps_size steps) steps
+                           || obs_agree CExact (observed_summary e oseq) (observed_summary e opar)))
+            else malformed
+        | _, _ => malformed
+        end
+    | _, _ => malformed
+    end
   else malformed.
